@@ -27,6 +27,7 @@ META["explanation"] += ' R05.9 the Vec the batched stream accumulates for one it
 META["explanation"] += ' R05.11 every public mutator publishes before it returns (publication call post-dominates the structural change). R05.12 who-may-create-a-receiver: Sender::subscribe only in ObservableVector::subscribe (next to the snapshot), Receiver::resubscribe nowhere. R05.1 also accepts a diff built on two branches when both alternatives pair with the method.'
 META["explanation"] += ' R05.9 also requires the collected batch to grow at its back only (no swap / replace / insert / reverse of it).'
 META["explanation"] += ' R05.5 (c) while the plain stream holds the rest of a multi-diff message, that state is left only where its iterator is known to be exhausted. Shared in the im_core group: R06.3 (a Reset is built only under a Lagged edge - anywhere in the crate, not only in the subscriber module).'
+META["explanation"] += ' Shared with C14: the waker typestate of the eyeball-im poll functions (a subscriber polled only when woken receives the same diffs), incl. the locally-owned-input clause for a forwarded poll result.'
 
 VEC_T = "vector::ObservableVector<T>"
 TXN_T = "vector::transaction::ObservableVectorTransaction<'o, T>"
@@ -127,6 +128,8 @@ def run(ctx):
         c08.r08_3(ctx, c08.stream_fns(F), lag)
     from . import groups
     groups.im_core(ctx)
+    from . import c14
+    c14.im_stream_typestate(ctx)   # a subscriber that is only polled when woken receives the same diffs: no Pending without a live registration
 
 
 
